@@ -29,13 +29,44 @@ Definition placeholder (vs : str) : str :=
 Fixpoint lookup (k : str) (l : list (str * str)) : str :=     (* goutil.String(b.params[name]) : "" when absent *)
   match l with [] => [] | (k', v) :: r => if str_eqb k k' then v else lookup k r end.
 
-(* Build: for paramRegex, name := range varParams (a Go map: any order) { path = Replace(paramRegex -> params[name]) } *)
-Definition build_path (path : str) (params : list (str * str)) (order : list str) : str :=
+(* Build before repair F19: for paramRegex, name := range varParams (a Go map: any order) { path = Replace(paramRegex -> params[name]) }
+   - one pass per variable, each scanning the values the earlier passes inserted *)
+Definition build_path_legacy (path : str) (params : list (str * str)) (order : list str) : str :=
   fold_left (fun p vs => replace1 vs (lookup (placeholder vs) params) p) order path.
-(* the distinct variable texts of the path, in scan order (the keys of varParams) *)
+(* the distinct variable texts of the path (the keys of varParams) *)
 Fixpoint dedup (l : list str) : list str :=
   match l with [] => [] | x :: r => if mem x r then dedup r else x :: dedup r end.
-Definition var_texts (path : str) : list str := dedup (all_vars path).
+Definition var_texts_legacy (path : str) : list str := dedup (all_vars path).
+
+(* strings.NewReplacer(old1, new1, old2, new2, ...).Replace(s): one left-to-right pass; at every position the first pair
+   (in argument order) whose old text starts there is taken, its new text is emitted and NOT scanned again *)
+Fixpoint first_match (pairs : list (str * str)) (s : str) : option (str * str) :=
+  match pairs with
+  | [] => None
+  | (old, new) :: r => match old with
+                       | [] => first_match r s
+                       | _ => if has_prefix old s then Some (old, new) else first_match r s
+                       end
+  end.
+Fixpoint replace_multi (fuel : nat) (pairs : list (str * str)) (s : str) : str :=
+  match fuel with
+  | O => s
+  | S f =>
+    match s with
+    | [] => []
+    | c :: r => match first_match pairs s with
+                | Some (old, new) => new ++ replace_multi f pairs (skipn (List.length old) s)
+                | None => c :: replace_multi f pairs r
+                end
+    end
+  end.
+(* the distinct variable texts in path order (first occurrences) *)
+Fixpoint dedup_first (seen l : list str) : list str :=
+  match l with [] => [] | x :: r => if mem x seen then dedup_first seen r else x :: dedup_first (x :: seen) r end.
+Definition var_texts (path : str) : list str := dedup_first [] (all_vars path).
+(* Build (after repair F19): all variables are replaced in one pass *)
+Definition build_path (path : str) (params : list (str * str)) (order : list str) : str :=
+  replace_multi (S (List.length path)) (map (fun vs => (vs, lookup (placeholder vs) params)) order) path.
 
 (* argument split: keys without braces become query parameters, the others placeholders *)
 Definition has_brace (k : str) : bool := contains_ch lbrace k || contains_ch rbrace k.
